@@ -220,6 +220,11 @@ def register(I):
     @reg("Deref::deref", "DerefMut::deref_mut", "Borrow::borrow")
     def deref_(I, st, args, info):
         a = args[0]
+        if isinstance(a, Ref) and info.path.last() == "deref_mut":
+            v = I.read_ref(a, st)
+            if isinstance(v, BoxV):
+                return Ref(a.key, a.path + (("box",),))
+            return a              # &mut Vec<T> -> &mut [T], &mut String -> &mut str: same cell
         if isinstance(a, Ref):
             v = I.read_ref(a, st)
             if isinstance(v, BoxV):
@@ -249,6 +254,11 @@ def register(I):
     def into(I, st, args, info):
         v = args[0]
         dt = _interp.short_type(info.dest_type() or "")
+        if info.path.last() == "into" and info.path.qself and dt:
+            src = _interp.short_type(info.path.qself)
+            r = I.P.resolve_fn(_interp.parse_path("<%s as From<%s>>::from" % (dt, src)), handwritten_only=True)
+            if r is not None:
+                return I.call_fn(r[0], args, st, dict(r[1]))
         if isinstance(v, StrSlice) and dt in ("String", ""):
             return StringV(v.chars())
         if isinstance(v, StrSlice) and dt.startswith("Box<"):
@@ -264,6 +274,9 @@ def register(I):
 
     @reg("Default::default")
     def default(I, st, args, info):
+        r = I.P.resolve_fn(info.path)
+        if r is not None:
+            return I.call_fn(r[0], args, st, dict(r[1]))
         dt = _interp.short_type(info.dest_type() or info.path.qself or "")
         if dt.startswith("Vec<"):
             return VecV(())
@@ -623,11 +636,14 @@ def register(I):
 
     @reg("Box::new_uninit")
     def box_new_uninit(I, st, args, info):
-        return BoxV(None)
+        from .fmtmodel import new_cell
+        return HeapBox(new_cell(st, None))
 
     @reg("boxed::box_assume_init_into_vec_unsafe", "::box_assume_init_into_vec_unsafe")
     def box_into_vec(I, st, args, info):
         b = args[0]
+        if isinstance(b, HeapBox):
+            return VecV(seq_of(I, st.store[b.key], st))
         return VecV(seq_of(I, b.v, st))
 
     @reg("<impl [T]>::into_vec")
@@ -653,19 +669,14 @@ def register(I):
             if kind == "map":
                 out = []
                 for x in items:
-                    r = I.call1(op[1], [x], st)
-                    if isinstance(r, Outcomes):
-                        raise Unsupported("panic inside iterator map closure")
-                    out.append(r)
+                    out.append(I.call_inplace(op[1], [x], st))
                 items = out
             elif kind == "enumerate":
                 items = [(i, x) for i, x in enumerate(items)]
             elif kind == "filter_map":
                 out = []
                 for x in items:
-                    r = I.call1(op[1], [x], st)
-                    if isinstance(r, Outcomes):
-                        raise Unsupported("panic inside filter_map closure")
+                    r = I.call_inplace(op[1], [x], st)
                     if isinstance(r, Union):
                         raise Unsupported("symbolic filter_map result")
                     if r.variant == "Some":
@@ -693,19 +704,17 @@ def register(I):
 
     def seq_calls(I, f, items, st, acc0, step):
         """thread a fold through possibly forking closure calls. step(acc, x) -> args list
-        returns [(St, acc | Panic)]"""
+        returns [(St, acc | Panic)]  (panicking paths stop there)"""
         paths = [(st, acc0)]
+        done = []
         for x in items:
             nxt = []
             for s, acc in paths:
                 outs = I.call_value(f, step(acc, x), s)
                 nxt.extend(outs)
-            normal = [(s, v) for s, v in nxt if not isinstance(v, Panic)]
-            done = [(s, v) for s, v in nxt if isinstance(v, Panic)]
-            if done:
-                raise Unsupported("panic inside iterator consumer closure")
-            paths = normal
-        return paths
+            done.extend((s, v) for s, v in nxt if isinstance(v, Panic))
+            paths = [(s, v) for s, v in nxt if not isinstance(v, Panic)]
+        return paths + done
 
     @reg("Iterator::fold")
     def it_fold(I, st, args, info):
@@ -716,7 +725,7 @@ def register(I):
     def it_for_each(I, st, args, info):
         items = drive(I, args[0], st)
         outs = seq_calls(I, args[1], items, st, (), lambda acc, x: [x])
-        return [(s, ()) for s, _ in outs]
+        return [(s, v if isinstance(v, Panic) else ()) for s, v in outs]
 
     @reg("Iterator::reduce")
     def it_reduce(I, st, args, info):
@@ -724,7 +733,7 @@ def register(I):
         if not items:
             return OPT_NONE
         outs = seq_calls(I, args[1], items[1:], st, items[0], lambda acc, x: [acc, x])
-        return [(s, opt_some(v)) for s, v in outs]
+        return [(s, v if isinstance(v, Panic) else opt_some(v)) for s, v in outs]
 
     @reg("Iterator::any")
     def it_any(I, st, args, info):
@@ -800,7 +809,7 @@ def register(I):
     def panic_fmt(I, st, args, info):
         raise PanicExc("panic_fmt")
 
-    @reg("::must_use", "hint::must_use")
+    @reg("::must_use", "hint::must_use", "must_use")
     def must_use(I, st, args, info):
         return args[0]
 
@@ -808,8 +817,9 @@ def register(I):
     def drop(I, st, args, info):
         return ()
 
-    from . import fmtmodel
+    from . import fmtmodel, bitflagsmodel
     fmtmodel.register(I, R, fmt_hooks)
+    bitflagsmodel.register(I, R)
 
 
 class ByteLen:
